@@ -1,6 +1,7 @@
 import NgoVerif.Meta.Algebra
 import NgoVerif.Meta.M4
 import NgoVerif.Generated.Tables
+import NgoVerif.Proofs.C12pos
 /-!
 # C12 — minmax_chains: chains compute the same #min/#max, including the empty case
 
@@ -36,6 +37,19 @@ theorem C12_chain_rules_sound {α : Type} (P : HT.Prog α) (D : HT.RDefs α) (hP
 
 theorem C12_telescope (a : Int) (l : List Int) : a + Alg.tele (a :: l) = (a :: l).getLast (List.cons_ne_nil _ _) :=
   Alg.tele_eq a l
+
+/-- **The chain variable replaces the result, not a group variable**: `_create_replacement` overwrites position
+`mapping[idx]` of the translated argument list, `idx` being the result's position in the old atom.  That position holds the
+old atom's result argument (no later argument is mapped to it).  Before the repair ad92bf8 the position `idx` itself was
+overwritten, which is a different one as soon as the result is not the last argument of the head (`res(X,P)`). -/
+theorem C12_result_position (mapping : List (Option Nat)) (args : List Term) (out : List (Option Term)) (idx j : Nat)
+    (h : MinMax.translateParameters mapping args = .ok out) (hidx : mapping[idx]? = some (some j))
+    (hlast : ∀ k, idx < k → mapping[k]? ≠ some (some j)) :
+    (out[j]?).join = args[idx]? :=
+  Proofs.C12pos.go_position args mapping args [] out idx j h hidx hlast
+
+/-- non-vacuity: `res(X,P)` over the chain predicate `chain(P,X)`: the result `X` (old position 0) sits at new position 1 -/
+example : MinMax.translateParameters [some 1, some 0] [.var "X", .var "P"] = .ok [some (.var "P"), some (.var "X")] := by rfl
 
 /-- `api.optimize` (read from the source on every run) constructs this pass with the current program and the caller's
 own declaration lists, under the parameter names the class declares, and replaces the current program by its result -/
